@@ -42,6 +42,7 @@ def run(ctx):
             cs = rng.choice([H(w.keys[0]['cert']), 'nil', '-', 'aa' * 31])
             ops.append(f'sxg.msg {exs(e)} {cs} {hexs(vu)} {d} {x}')
             ops.append(f'sxg.hdr {exs(e)}')
+            ops.append(f'sxg.hdrint {exs(e)}')
             ops.append(f'sxg.write {exs(e)}')
             k = rng.choice(w.keys)
             ops.append(f'sxg.sign.mock {exs(e)} {k["cert"]} {hexs(b"https://example.com/cert.msg")} {hexs(b"https://example.com/v")} {abs(d) % 2**40} {abs(d) % 2**40 + 3600}')
